@@ -412,12 +412,15 @@ def _field_refs(f, field_suffix, mutable=None):
     return out
 
 
-def _origin_field(di, op, depth=16):
+def _origin_field(di, op, depth=16, chain=None):
     """follow copies, re-borrows and receiver-position calls (deref, last, unwrap, ...) of an operand back to the first
-    place that names a struct field / enum payload; returns that field name or None"""
+    place that names a struct field / enum payload; returns that field name or None.  `chain` collects the calls
+    followed (callee name, remaining operands)."""
     from ..facts import place_fields
     for _ in range(depth):
         rr = di.resolve(op)
+        if rr[0] == "call" and chain is not None:
+            chain.append(((callee(rr[1]) or "").split("::")[-1], rr[1][5][1:]))
         if rr[0] == "place":
             fl = [x for x in place_fields(rr[1]) if x and "::" in x]
             if fl:
@@ -488,10 +491,40 @@ def rule_site_table(ck, facts, R):
             tf = _origin_field(di, t[5][0])
             if not (tf and tf.endswith(TABLE)):
                 continue
-            of = _origin_field(di, t[5][1])
+            chain = []
+            of = _origin_field(di, t[5][1], chain=chain)
             origin = None
             if of and "bytecode::Instruction::" in of:
                 origin = ("operand", of)
+            elif of and "::Machine::" in of and not any(n in ("last", "last_mut", "pop") for n, _ in chain) and [n for n, _ in chain if n in ("index", "get_unchecked", "get")]:
+                # a table held by the machine, selected by (function, program counter): static per site if the
+                # innermost index is the local that also fetches the instruction and the table is built by counting
+                # the Delay instructions of each function's code
+                idx_ops = [ops[0] for n, ops in chain if n in ("index", "get_unchecked", "get") and ops]
+                pc_locals = set()
+                for b3, t3 in f.calls():
+                    if (callee(t3) or "").split("::")[-1] in ("index", "get_unchecked") and len(t3[5]) >= 2:
+                        tf3 = _origin_field(di, t3[5][0])
+                        if tf3 and tf3.endswith("FuncProto::bytecodes"):
+                            r3 = di.resolve(t3[5][1])
+                            if r3[0] == "multi":
+                                pc_locals.add(r3[1])
+                by_pc = any(di.resolve(o)[0] == "multi" and di.resolve(o)[1] in pc_locals for o in idx_ops)
+                field = of.split("::")[-1]
+                builders = []
+                for g in lang.fns:
+                    if "::runtime::vm" not in g.path or g.kind == "promoted" or "::test" in g.path:
+                        continue
+                    if any(st[KIND] == "a" and st[4][1] and (place_fields(st[4]) or [None])[-1] and place_fields(st[4])[-1].endswith("Machine::" + field) for _, st in g.all_stmts()):
+                        fam = facts.family(roles.LANG, g.path)
+                        reads_code = any(_field_refs(h, "FuncProto::bytecodes") for h in fam)
+                        tests_delay = any(st[KIND] == "a" and st[5][0] == "disc" and st[5][2].endswith("bytecode::Instruction") for h in fam for _, st in h.all_stmts())
+                        if reads_code and tests_delay:
+                            builders.append(g.short)
+                if by_pc and builders:
+                    ck.ok(R, "table|delay_sizes", {"index": "%s[function][program counter]" % field, "built_by": builders, "how": "counts the Delay instructions preceding each code position"})
+                    continue
+                origin = ("cursor", of)
             elif of and "::Machine::" in of:
                 origin = ("cursor", of)
             else:
